@@ -183,6 +183,8 @@ def op_strategy(draw):
         op["lam"] = draw(st.integers(-4, 8)) / 4.0
     elif name == "save":
         op["extra"] = draw(st.sampled_from([None, None, "fresh", "shared"]))
+    elif name == "save_load":
+        op["to"] = draw(st.sampled_from(["own", "folder"]))
     elif name == "folder":
         op["to"] = draw(st.sampled_from(["", "A", "B"]))
     elif name in ("set_iter", "get_results", "result_iter", "continue"):
@@ -218,6 +220,12 @@ def histories(draw, kinds=KINDS):
         ops = [dict(op="solve", lam=0.5), dict(op="save"), dict(op="replace_mesh", recipe=rec2), dict(op="solve", lam=0.75), dict(op="save"),
                dict(op="set_iter", i=0), dict(op="replace_mesh", recipe=rec3), dict(op="solve", lam=1.0), dict(op="save"),
                dict(op="set_iter", i=1), dict(op="set_iter", i=2), dict(op="set_iter", i=0), dict(op="get_results", i=2)]
+    elif kind != "beam" and draw(st.integers(0, 5)) == 0:
+        # scenario: a history on two meshes saved in a folder of its own, then the iterations folder changed by hand and the
+        # simulation saved again into that folder; every iteration must be restorable from the second copy
+        rec2 = draw(gm.recipes2d(types=SMALL, affine_ok=False, perm_ok=False, hmin=7, hmax=9, nmax=4))
+        ops = [dict(op="solve", lam=0.5), dict(op="save"), dict(op="replace_mesh", recipe=rec2), dict(op="solve", lam=0.75), dict(op="save"),
+               dict(op="save_load", to="own"), dict(op="folder", to="B"), dict(op="save_load", to="folder")]
     elif draw(st.integers(0, 4)) == 0:
         # scenario: a monitoring loop that looks at the iteration it has just stored as "the last one", in memory or on disk
         how = draw(st.sampled_from(["get_results", "result_iter", "set_iter"]))
@@ -378,7 +386,9 @@ def run_history(case, rec):
             elif name == "save_load":
                 if not snaps:
                     continue
-                folder = os.path.join(root, "S")
+                # target: a folder of its own, or the folder the iterations are currently written to (changed by hand before)
+                folder = simu.folder if (op.get("to") == "folder" and simu.folder) else os.path.join(root, "S")
+                rec.label("save_to:" + ("iterations_folder" if folder == simu.folder else "own_folder"))
                 cur_fields = ad.fields(simu)
                 try:
                     simu.Save(folder)
@@ -398,8 +408,11 @@ def run_history(case, rec):
                     r = loaded.Get_results(j)
                     _equal_fields(rec, r, {k: v for k, v in S["fields"].items() if k in r or kind != "thermal"}, "load_history",
                                   f"Load_Simu: stored iteration {j} [{S['where']}]", sig)
-                j = len(snaps) - 1
-                loaded.Set_Iter(j)
+                # every stored iteration can be restored in the loaded simulation, whatever mesh it was saved on
+                for j in list(range(len(snaps) - 1)) + [len(snaps) - 1]:
+                    loaded.Set_Iter(j)
+                    _equal_fields(rec, _mesh_sig(loaded.mesh), snaps[j]["mesh"], "load_set_iter_mesh", f"Load_Simu then Set_Iter({j}): mesh", sig)
+                    _equal_fields(rec, ad.fields(loaded), snaps[j]["fields"], "load_set_iter_fields", f"Load_Simu then Set_Iter({j})", sig)
                 res = ad.results(loaded)
                 for nm, exp in snaps[j]["results"].items():
                     rec.close(res[nm] - exp, np.abs(exp).max() + 1e-9, 1e-10, "load_results", f"Load_Simu: Result('{nm}') of iteration {j}", **sig)
